@@ -227,6 +227,14 @@ class _TAny(Ty):
         ref = getattr(v, "_ref", None)
         if ref is not None and hasattr(v, "_cls"):
             return self._f("ref", z3.IntSort())(ref)
+        if isinstance(v, (tuple, list)) and len(v) <= 6:
+            # small concrete-length tuples/lists: structural (congruent) encoding
+            name = f"{'tuple' if isinstance(v, tuple) else 'list'}{len(v)}"
+            if len(v) == 0:
+                return z3.Const("any_" + name, AnySort)
+            if name not in self._inj:
+                self._inj[name] = z3.Function("any_" + name, *([AnySort] * len(v)), AnySort)
+            return self._inj[name](*[self.unwrap(x) for x in v])
         k = id(v)
         if k not in self._objs:
             self._objs[k] = (v, z3.Const(f"any_obj{len(self._objs)}", AnySort))
@@ -431,10 +439,14 @@ class Fn(Ty):
     value of type `returns` (so a proof holds for every behaviour of the callable) and has no
     effect on modelled state (assumption listed per use)."""
 
-    def __init__(self, returns=None, name="fn"):
+    def __init__(self, returns=None, name="fn", effect="none", keeps=()):
+        """effect="none": a pure function of its arguments (keys, clock readers, predicates);
+        effect="world": arbitrary user code (callbacks, hooks) - every call havocs the heap."""
         self.returns = returns
         self.name = f"Fn(->{returns.name if returns else 'None'})"
         self._n = name
+        self.effect = effect
+        self.keeps = [tuple(k) for k in keeps]      # frame of a world-effect callable: fields it does not write
 
     def sort(self):
         return z3.IntSort()
@@ -447,10 +459,40 @@ class Fn(Ty):
         term = z3.simplify(term)
         if z3.is_int_value(term) and term.as_long() in Fn._table:
             return Fn._table[term.as_long()]
+        if not z3.is_int_value(term) and Fn._table:
+            # not syntactically a known closure: does the path condition force it to be one?
+            c = _c()
+            s = c.solver
+            if s.check() == z3.sat:
+                k = s.model().eval(term, model_completion=True)
+                if z3.is_int_value(k) and k.as_long() in Fn._table:
+                    s.push()
+                    s.add(term != k)
+                    forced = s.check() == z3.unsat
+                    s.pop()
+                    if forced:
+                        return Fn._table[k.as_long()]
         ret = self.returns
         nm = self._n
+        effect = getattr(self, "effect", "none")
 
         def call(*a, **k):
+            if effect == "world":
+                # unknown user callable: anything on the heap may change (class invariants of the
+                # objects in focus are preserved - it goes through public APIs)
+                c = _c()
+                keep = {}
+                for key in getattr(self, "keeps", ()):
+                    key = tuple(key)
+                    if key in c.heap.st.arrays:
+                        keep[key] = (c.heap.st.arrays[key], c.heap.st.key_epoch.get(key, c.heap.st.base_epoch))
+                c.heap.havoc(None)
+                for key, (arr, ep) in keep.items():
+                    c.heap.st.arrays[key] = arr
+                    c.heap.st.key_epoch[key] = ep
+                from .verify import check_invariants
+                for o in getattr(c, "focus_objects", ()):
+                    check_invariants(c, o, "after-opaque-call", assume=True)
             r = None if ret is None else ret.fresh(f"{nm}_ret")
             # ghost log of calls of unknown callables: (callable id term, args, kwargs, result)
             _c().ghost_args.setdefault("fn_calls", []).append((term, a, k, r))
